@@ -357,8 +357,31 @@ def h_embed_order(run, shoot):
     return h
 
 
-def finding_handlers(run, shoot):
+def h_field_hides(run, shoot, accbin):
+    def h(e):
+        r, gen, d = _gen(run, shoot, e)
+        if r["rc"] != 0:
+            return "other: exit %s: %s" % (r["rc"], r["err"][-200:])
+        if accbin is None:
+            return "other: ctoracc not built"
+        info = ctoracc.run_ctoracc(accbin, d.parent, ["./" + d.name])
+        pk = [v for k, v in info.items() if k.endswith("/" + d.name)]
+        if not pk or pk[0]["errors"]:
+            return "other: witness package does not type-check: %s" % (pk and pk[0]["errors"][:2])
+        g = pk[0]["ifaces"].get("SonGetter")
+        if g is None:
+            return "other: SonGetter not generated"
+        if g["impl"] == "yes":
+            return "correct"
+        if "BaseGetter" in g["embeds"] and g["impl"] == "no":
+            return "buggy"
+        return "other: SonGetter %s" % g
+    return h
+
+
+def finding_handlers(run, shoot, accbin=None):
     return {
+        "K_getset_field_hides_accessor": h_field_hides(run, shoot, accbin),
         "K_getset_nil_named": h_nil_named(run, shoot),
         "K_getset_once_shadow": h_once_shadow(run, shoot),
         "K_getset_excluded_field": h_excluded_field(run, shoot),
@@ -415,7 +438,7 @@ def main(run):
 
     # L1 (case transforms + directive parsers) runs beside the L2 stream, with its own random stream
     l1 = ctoracc.start_l1(run, probe)
-    outcome = run.replay_findings(finding_handlers(run, shoot))
+    outcome = run.replay_findings(finding_handlers(run, shoot, accbin))
     run.log("findings replayed")
 
     npk = 600 if run.thorough() else 50
